@@ -199,6 +199,30 @@ func (i *interpreter) mapRange(m *omap) iter {
 		it.order[k] = k
 	}
 	ps := i.ps
+	if ps.forcedPerm >= 0 && n >= 2 {
+		// harness-controlled order (site lemmas): permutation number forcedPerm
+		// of the insertion order; beyond 3 entries: 0 identity, 1 reverse, else rotate
+		switch {
+		case n == 2:
+			if ps.forcedPerm%2 == 1 {
+				it.order = []int{1, 0}
+			}
+		case n == 3:
+			it.order = perms3[ps.forcedPerm%6]
+		default:
+			switch ps.forcedPerm % 3 {
+			case 1:
+				for k := range it.order {
+					it.order[k] = n - 1 - k
+				}
+			case 2:
+				for k := range it.order {
+					it.order[k] = (k + 1) % n
+				}
+			}
+		}
+		return it
+	}
 	if !ps.oracle.MapOrder || n < 2 {
 		return it
 	}
